@@ -138,6 +138,44 @@ def run(db, tier):
     lsub = [t for g in db.with_closures(ld) for _, t in g.calls() if t.get("f", "").endswith("GenericImage::sub_image") or t.get("f", "").endswith("GenericImageView::view") or t.get("f", "").endswith("sub_image")]
     rep.check(bool(lsub), "R-EXTRACT-COPY", "load|crops-with-sub_image", ld.loc, "loading crops the source image with sub_image(offsets, dims)", "loading no longer crops the image with sub_image")
 
+    # ---------------- R-PIXEL-PATH: nothing on the extract / load path writes into a pixel buffer except the exact-copy primitives
+    rep.rule("R-PIXEL-PATH", "in formats/anm/image_io.rs pixel containers (byte buffers, ImageBuffer, SubImage, DynamicImage) are mutably "
+                             "borrowed only by the exact-copy primitives (sub_image, copy_from); no other call and no direct store writes "
+                             "pixel bytes between the THTX data and the image file (or back)")
+    PIX = re.compile(r"\[u8\]|Vec<u8>|ImageBuffer<|SubImage<|DynamicImage|ChunksExactMut<|ChunksMut<|IterMut<'_, u8>|\[u8; \d+\]")
+    ALLOWED_MUT = ("image::image::GenericImage::sub_image", "image::image::GenericImage::copy_from")
+    n_mut = n_fn = 0
+    for g in sorted(db.fns.values(), key=lambda g: (g.file, g.line)):
+        if g.gen or not g.file.endswith("formats/anm/image_io.rs"):
+            continue
+        n_fn += 1
+        rep.fn(g)
+        L = g.mir["locals"]
+        for _, t in g.calls():
+            c = t.get("f", "") or ""
+            for a in t.get("a", []):
+                l = op_local(a)
+                if l is None:
+                    continue
+                ty = db.types[L[l]]
+                if ty.startswith("&mut ") and PIX.search(ty):
+                    n_mut += 1
+                    rep.site()
+                    rep.check(c in ALLOWED_MUT, "R-PIXEL-PATH", "%s|%s" % (g.id, c), "%s:%d" % (g.file, t["ln"]),
+                              "%s places pixels by exact copy" % c.rsplit("::", 1)[-1],
+                              "%s takes a mutable borrow of pixel data (%s): pixel bytes are modified on the way between texture and image file" % (c, ty))
+        for b in g.blocks:
+            for st in b["s"]:
+                d = st.get("d")
+                if isinstance(d, dict) and d.get("p"):
+                    base = db.types[L[d["l"]]]
+                    proj = d["p"]
+                    if PIX.search(base) and any(e == "*" or (isinstance(e, list) and e[0] in ("i", "ci", "sub")) for e in proj):
+                        rep.bad("R-PIXEL-PATH", "%s|direct store" % g.id, "%s:%d" % (g.file, st["ln"]),
+                                "a pixel byte is overwritten in place (%s)" % base)
+    rep.floor("functions of formats/anm/image_io.rs", n_fn, 10)
+    rep.floor("mutable borrows of pixel containers on the extract/load path", n_mut, 3)
+
     # ---------------- R-SOURCE-ORDER
     ap = db.fn("formats::anm::apply_anm_image_source")
     rep.fn(ap)
